@@ -273,6 +273,8 @@ class Check:
             self.proof_broken = "%s/Properties.v" % self.prop
             return False, pr["log"][-2000:] + "\n".join(bad)
         self.proof_broken = None
+        if self.tier == "thorough":
+            coqchk_once(self, ["lib", "gen", self.prop] + list(extra_dirs))
         return True, ""
 
     # -- results
@@ -429,3 +431,30 @@ def conclude_differential(chk, state, search_more):
     chk.coverage["distinct_nontrivial"] = state.get("nt", 0)
     chk.coverage["correspondence_mismatches"] = len(state.get("mismatch", []))
     chk.coverage["spec_failures_on_impl_output"] = len(state.get("specfail", []))
+
+
+# --------------------------------------------------------------------------- thorough-tier extras
+def coqchk_once(chk, dirs):
+    """Independent re-check of the compiled development with coqchk (thorough tier only; one run
+    per tree state, shared through a stamp file). Records the axioms coqchk reports."""
+    mods, stamp_src = [], []
+    for d in dirs:
+        for dp, _, fs in os.walk(os.path.join(COQ, d)):
+            for f in sorted(fs):
+                if f.endswith(".vo"):
+                    rel = os.path.relpath(os.path.join(dp, f), COQ)[:-3]
+                    mods.append("Gv." + rel.replace("/", "."))
+                    stamp_src.append("%s:%d" % (rel, int(os.path.getmtime(os.path.join(dp, f)))))
+    key = sha("|".join(sorted(stamp_src)))
+    stamp = os.path.join(WORK, "coqchk_%s.json" % key)
+    if os.path.exists(stamp):
+        res = json.load(open(stamp))
+    else:
+        t0 = time.time()
+        rc, out = sh("coqchk -silent -o -Q . Gv %s" % " ".join(sorted(mods)), cwd=COQ, timeout=5400)
+        res = {"rc": rc, "wall_s": round(time.time() - t0, 1), "tail": out[-3000:], "modules": len(mods)}
+        json.dump(res, open(stamp, "w"))
+    chk.coverage["coqchk"] = res
+    if res["rc"] != 0:
+        chk.add_violation("proof:coqchk", "coqchk rejected the compiled development: " + res["tail"][-800:], found_input=False)
+    return res
